@@ -21,8 +21,12 @@ theorem reserialize_parse_eq (t : Str) (ps : List Piece) (h : parse t = (ps, non
     parse (reserialize ps) = (ps, none) :=
   reparse_fuel (t.length + 1) t (Nat.lt_succ_self _) ps h _ (Nat.lt_succ_self _)
 
-/-- what `prepare_format(t).strip()` returns parses exactly like `t` -/
-theorem prepare_format_parse_eq (t s : Str) (h : prepareFormat t = .ok s) :
+/-- what `prepare_format(t).strip()` returns parses exactly like `t`, for every template whose
+top-level literal text is markup-free and WHATEVER its fields and format specs contain (`<`, `>`,
+tag-looking text …): by the regenerated `raw=` arguments only the top-level literal texts reach the
+markup parser `mk` (`Format.feedsOk_nested`) -/
+theorem prepare_format_parse_eq (mk : Str → Except Err Str) (t s : Str) (hm : MarkupFree mk t)
+    (h : prepareFormat mk t = .ok s) :
     parse s = parse t ∧ (parse t).2 = none := by
   unfold prepareFormat at h
   split at h
@@ -30,15 +34,17 @@ theorem prepare_format_parse_eq (t s : Str) (h : prepareFormat t = .ok s) :
     simp at h; subst h
     rw [levels_eq.2] at hc
     simp [prepCheck] at hc
-    have hp : parse t = ((parse t).1, none) := by rw [← hc.1]
-    exact ⟨by rw [reserialize_parse_eq t _ hp, ← hp], hc.1⟩
+    have hp : parse t = ((parse t).1, none) := by rw [← hc.1.1]
+    rw [reserializeM_markupFree mk _ hm]
+    exact ⟨by rw [reserialize_parse_eq t _ hp, ← hp], hc.1.1⟩
   · simp at h
 
 /-- therefore `format_map` (and `format`) cannot tell the stripped format from the original: same text,
 same error, same auto-numbering state, for every record / argument oracle and every depth -/
-theorem format_map_equiv {V} (env : Env V) (t s : Str) (h : prepareFormat t = .ok s) :
+theorem format_map_equiv {V} (mk : Str → Except Err Str) (env : Env V) (t s : Str) (hm : MarkupFree mk t)
+    (h : prepareFormat mk t = .ok s) :
     (∀ d an, buildString env d s an = buildString env d t an) ∧ strFormat env s = strFormat env t := by
-  have hp := (prepare_format_parse_eq t s h).1
+  have hp := (prepare_format_parse_eq mk t s hm h).1
   have h1 : ∀ d an, buildString env d s an = buildString env d t an := by
     intro d an
     cases d with
@@ -73,17 +79,32 @@ theorem prepCheck_iff (d : Nat) (t : Str) : prepCheck d t = true ↔ Accepts d t
         | none => rfl
         | some f => exact (ih _).2 (h2 p hp f hf)
 
-/-- `prepare_format` (hence `logger.add`) fails exactly on the templates Python's parser refuses within
-three levels, always with `ValueError`; no template is rejected for a formatting reason of loguru's own -/
-theorem reserialize_error_iff (t : Str) :
-    (prepareFormat t = .error .valueError ↔ ¬ Accepts 3 t) ∧
-    ((∃ s, prepareFormat t = .ok s) ↔ Accepts 3 t) := by
+/-- `prepare_format` (hence `logger.add`) fails, on a template with markup-free literal text, exactly
+when Python's parser refuses it within three levels, always with `ValueError`; no template is rejected
+for a formatting reason of loguru's own – in particular not for what a format spec contains -/
+theorem reserialize_error_iff (mk : Str → Except Err Str) (t : Str) (hm : MarkupFree mk t) :
+    (prepareFormat mk t = .error .valueError ↔ ¬ Accepts 3 t) ∧
+    ((∃ s, prepareFormat mk t = .ok s) ↔ Accepts 3 t) := by
   have e := prepCheck_iff 3 t
+  have hf := feedsOk_markupFree mk 2 t hm
   unfold prepareFormat
   rw [levels_eq.2]
   by_cases h : prepCheck 3 t = true
-  · simp [h, e.1 h]
+  · simp [h, hf, e.1 h]
   · simp [h]; intro ha; exact h (e.2 ha)
+
+/-- markup never hides a syntax error: whatever the markup parser does, `prepare_format` refuses every
+template Python's parser refuses within three levels -/
+theorem prepare_format_rejects (mk : Str → Except Err Str) (t : Str) (h : ¬ Accepts 3 t) :
+    prepareFormat mk t = .error .valueError := by
+  have e := prepCheck_iff 3 t
+  unfold prepareFormat
+  rw [levels_eq.2]
+  have : prepCheck 3 t = false := by
+    cases hc : prepCheck 3 t with
+    | false => rfl
+    | true => exact absurd (e.1 hc) h
+  simp [this]
 
 /-! ### (c) `Logger.add`, `Logger._log`, `Handler.emit` -/
 
@@ -98,15 +119,17 @@ theorem terminators :
 
 /-- without `colors` the message goes through `str.format` exactly when there is an argument, and is
 left untouched otherwise (a lone `{` in a plain message is not an error) -/
-theorem plain_message_is_python_format {V} (env : Env V) (hasArgs hasKwargs : Bool) (m : Str) :
-    logMessage env false hasArgs hasKwargs m =
+theorem plain_message_is_python_format {V} (mk : Str → Except Err Str) (env : Env V) (hasArgs hasKwargs : Bool)
+    (m : Str) :
+    logMessage mk env false hasArgs hasKwargs m =
       if hasArgs || hasKwargs then strFormat env m else .ok m := by
   cases hasArgs <;> cases hasKwargs <;> rfl
 
-/-- with `colors` it goes through loguru's own formatter under the same guard -/
-theorem colored_message_branch {V} (env : Env V) (hasArgs hasKwargs : Bool) (m : Str) :
-    logMessage env true hasArgs hasKwargs m =
-      if hasArgs || hasKwargs then coloredFormat env m else .ok m := by
+/-- with `colors` it goes through loguru's own formatter under the same guard, and through the markup
+parser alone when there is no argument -/
+theorem colored_message_branch {V} (mk : Str → Except Err Str) (env : Env V) (hasArgs hasKwargs : Bool) (m : Str) :
+    logMessage mk env true hasArgs hasKwargs m =
+      if hasArgs || hasKwargs then coloredFormat mk env m else mk m := by
   cases hasArgs <;> cases hasKwargs <;> rfl
 
 /-- `emit`: raw ⇒ the bare message, whatever the format; otherwise `format_map` of the precomputed
@@ -119,41 +142,64 @@ theorem emit_text {V} (record : Env V) (isRaw dynamic colorize cmNone : Bool) (f
 /-- end to end for a static handler: the emitted text is Python's `format_map` of
 `format + terminator + "{exception}"` itself -/
 theorem emit_static_text {V} (record : Env V) (dynamic colorize cmNone : Bool)
-    (format terminator s message : Str) (h : addFormat format terminator = .ok s) :
+    (mk : Str → Except Err Str) (format terminator s message : Str)
+    (hm : MarkupFree mk (format ++ terminator ++ "{exception}".toList))
+    (h : addFormat mk format terminator = .ok s) :
     emitText record false dynamic colorize cmNone s message =
       strFormat record (format ++ terminator ++ "{exception}".toList) := by
   rw [emit_text]
-  exact (format_map_equiv record _ s h).2
+  exact (format_map_equiv mk record _ s hm h).2
 
 /-! ### (b) coloured messages: `_parse_with_formatting` against `str.format` -/
 
-/-- FULL statement (not proved – false of the current code, known finding F21): the coloured path
-computes what `str.format` computes, same text or same error, for every template and all oracles -/
+/-- FULL statement (not proved – false of the current code, known finding F21): on a template whose
+literal text is markup-free the coloured path computes what `str.format` computes, same text or same
+error, for every template, all oracles and every markup parser `mk` -/
 def colored_eq_str_format_statement : Prop :=
-  ∀ (env : Env Str) (t : Str), env.hasArgs = true → coloredFormat env t = strFormat env t
+  ∀ (mk : Str → Except Err Str) (env : Env Str) (t : Str), env.hasArgs = true →
+    (∀ p ∈ (parse t).1, mk p.lit = .ok p.lit) → coloredFormat mk env t = strFormat env t
 
-/-- PROVED PART: on templates without a third nesting level (`shallow`, decidable) the coloured path
-equals `str.format` – same text or same error kind – for EVERY field name (automatic, numbered, named,
-with `.attr`/`[key]` accessors), every argument tuple/dict and all `__getattr__/__getitem__/__format__`
-oracles.  Since d5e7115 the numbering rule regenerated from /repo (`Gen.numberingSubject`,
-`Gen.headSeparators`, `Gen.autoIndexPrefixesName`) is `field_name_split`'s first-component rule
-(`Format.numberingText_eq`); a revert to the whole-name rule breaks this proof.  Simulation of the two
-auto-numbering automata (`Format.R`), induction over the pieces at each level. -/
-theorem colored_eq_str_format_partial {V} (env : Env V) (hA : env.hasArgs = true) (t : Str)
+/-- `str.format` on an already parsed template (so that "markup removed" can be said on the pieces) -/
+def strFormatPieces {V} (env : Env V) (pr : Parsed) : Except Err Str :=
+  (formatPieces env 1 pr .init).map (·.1)
+
+theorem strFormat_eq_pieces {V} (env : Env V) (t : Str) : strFormat env t = strFormatPieces env (parse t) := by
+  simp [strFormat, strFormatPieces, buildString_succ]
+
+/-- "… also under opt(colors=True) once markup is removed": if the markup parser leaves `st lit` of
+every literal text of the template, the coloured message is `str.format` of the template whose literal
+texts are replaced by `st lit` – same text or same error kind, every field name, every argument
+tuple/dict, all `__getattr__/__getitem__/__format__` oracles – for templates without a third nesting
+level (`shallow`, F21).  The markup parser `mk` is constrained on the TOP-LEVEL literal texts only: by
+the `raw=` arguments regenerated from /repo (`Gen.literalRawWith`, `Gen.formattedRawWith`,
+`Gen.nestedRecursiveWith`) the text of a format spec and the formatted values never reach it, so a
+spec such as `<>8`, `%H<b>%M</b>` or `\<b>` arrives at `__format__` verbatim.  Feeding spec text to
+the markup parser (`raw=recursive` dropped) breaks `Format.feed_nested`, hence this proof. -/
+theorem colored_eq_str_format_stripped {V} (mk : Str → Except Err Str) (env : Env V) (hA : env.hasArgs = true)
+    (st : Str → Str) (t : Str) (hm : ∀ p ∈ (parse t).1, mk p.lit = .ok (st p.lit))
     (h2 : shallow t = true) :
-    coloredFormat env t = strFormat env t := by
-  have h := colored_rel env hA t (specsOk_all t) h2
-  unfold coloredFormat strFormat
+    coloredFormat mk env t = strFormatPieces env ((parse t).1.map (mapLit st), (parse t).2) := by
+  have h := colored_rel mk env hA st t hm (specsOk_all t) h2
+  unfold coloredFormat strFormatPieces
   rw [levels_eq.1]
   have e0 : Gen.autoArgIndexDefault = 0 := rfl
   rw [e0]
-  cases hb : buildString env 2 t .init with
+  cases hb : formatPieces env 1 ((parse t).1.map (mapLit st), (parse t).2) .init with
   | error e => rw [hb] at h; rw [h.error_left]; rfl
   | ok w =>
     obtain ⟨x, an⟩ := w
     rw [hb] at h
     obtain ⟨au, e, _⟩ := h.ok_left
     rw [e]; rfl
+
+/-- PROVED PART of the full statement: markup-free literal text and no third nesting level ⇒ the
+coloured path equals `str.format`, whatever the format specs contain and whatever the markup parser
+would make of them.  Since d5e7115 the regenerated numbering rule is `field_name_split`'s
+first-component rule (`Format.numberingText_eq`); a revert breaks this proof too. -/
+theorem colored_eq_str_format_partial {V} (mk : Str → Except Err Str) (env : Env V) (hA : env.hasArgs = true)
+    (t : Str) (hm : ∀ p ∈ (parse t).1, mk p.lit = .ok p.lit) (h2 : shallow t = true) :
+    coloredFormat mk env t = strFormat env t := by
+  rw [colored_eq_str_format_stripped mk env hA id t hm h2, map_mapLit_id, strFormat_eq_pieces]
 
 /-- a tiny concrete universe for the witnesses: values are texts, `.attr` appends, `format` appends the spec -/
 def demoEnv (args : List Str) : Env Str where
@@ -170,24 +216,35 @@ def demoEnv (args : List Str) : Env Str where
 the coloured call used to raise `KeyError`, now both render the attribute of argument 0 -/
 theorem colored_first_component_regression :
     strFormat (demoEnv ["1".toList]) "{.real}".toList = .ok "1.real".toList ∧
-    coloredFormat (demoEnv ["1".toList]) "{.real}".toList = .ok "1.real".toList := ⟨by rfl, by rfl⟩
+    coloredFormat .ok (demoEnv ["1".toList]) "{.real}".toList = .ok "1.real".toList := ⟨by rfl, by rfl⟩
 
 /-- regression of F5: `"{0.real}{}"` switches from manual to automatic numbering – `ValueError` on
 both paths (the coloured call used to render `1.real1`) -/
 theorem colored_first_component_regression2 :
     strFormat (demoEnv ["1".toList]) "{0.real}{}".toList = .error .valueError ∧
-    coloredFormat (demoEnv ["1".toList]) "{0.real}{}".toList = .error .valueError := ⟨by rfl, by rfl⟩
+    coloredFormat .ok (demoEnv ["1".toList]) "{0.real}{}".toList = .error .valueError := ⟨by rfl, by rfl⟩
 
 /-- F21 witness (replayed on the implementation by harness/c05.py): a third nesting level holding only
 escaped braces is refused by `str.format` ("Max string recursion exceeded") and rendered by the
 coloured call -/
 theorem colored_depth_witness :
     strFormat (demoEnv ["1".toList]) "{0:{0:{{Y}}}}".toList = .error .valueError ∧
-    coloredFormat (demoEnv ["1".toList]) "{0:{0:{{Y}}}}".toList = .ok "11{Y}".toList := ⟨by rfl, by rfl⟩
+    coloredFormat .ok (demoEnv ["1".toList]) "{0:{0:{{Y}}}}".toList = .ok "11{Y}".toList := ⟨by rfl, by rfl⟩
+
+/-- a hostile markup parser: refuses every text holding a `<` -/
+def hostileMarkup (s : Str) : Except Err Str := if s.contains '<' then .error .valueError else .ok s
+
+/-- format specs reach `__format__` verbatim: `<>8` (fill `<`, align `>`), tag-looking and
+backslash-escaped spec text, also when the spec is assembled from a nested field -/
+theorem colored_spec_verbatim_witness :
+    coloredFormat hostileMarkup (demoEnv ["1".toList, "2".toList]) "{:<>8}|{:<b>%M</b>}".toList = .ok "1<>8|2<b>%M</b>".toList ∧
+    coloredFormat hostileMarkup (demoEnv ["1".toList, "2".toList]) "a{0:\\<b>{1}</b>}".toList = .ok "a1\\<b>2</b>".toList ∧
+    strFormat (demoEnv ["1".toList, "2".toList]) "a{0:\\<b>{1}</b>}".toList = .ok "a1\\<b>2</b>".toList :=
+  ⟨by rfl, by rfl, by rfl⟩
 
 theorem colored_eq_str_format_statement_false : ¬ colored_eq_str_format_statement := by
   intro h
-  have e := h (demoEnv ["1".toList]) "{0:{0:{{Y}}}}".toList rfl
+  have e := h .ok (demoEnv ["1".toList]) "{0:{0:{{Y}}}}".toList rfl (fun _ _ => rfl)
   rw [colored_depth_witness.1, colored_depth_witness.2] at e
   cases e
 
@@ -197,10 +254,19 @@ example : parse "a{{b}}c{x[!:}]!r:>{w}}z".toList =
     ([⟨"a{".toList, none⟩, ⟨"b}".toList, none⟩,
       ⟨"c".toList, some ⟨"x[!:}]".toList, ">{w}".toList, some 'r'⟩⟩, ⟨"z".toList, none⟩], none) := by decide
 
-example : prepareFormat "a{{b}}c{x[!:}]!r:>{w}}z".toList = .ok "a{{b}}c{x[!:}]!r:>{w}}z".toList := by rfl
+example : prepareFormat .ok "a{{b}}c{x[!:}]!r:>{w}}z".toList = .ok "a{{b}}c{x[!:}]!r:>{w}}z".toList := by rfl
 
-example : prepareFormat "{a:{b:{c}}}".toList = .error .valueError := by rfl
-example : prepareFormat "{a!}".toList = .error .valueError := by rfl
+example : prepareFormat .ok "{a:{b:{c}}}".toList = .error .valueError := by rfl
+example : prepareFormat .ok "{a!}".toList = .error .valueError := by rfl
+example : prepareFormat hostileMarkup "[{x:<>8}|{t:%H<b>%M</b>}]".toList = .ok "[{x:<>8}|{t:%H<b>%M</b>}]".toList := by rfl
+example : MarkupFree hostileMarkup "[{x:<>8}|{t:%H<b>%M</b>}]".toList := by
+  intro p hp
+  have : (parse "[{x:<>8}|{t:%H<b>%M</b>}]".toList).1 =
+      [⟨"[".toList, some ⟨"x".toList, "<>8".toList, none⟩⟩, ⟨"|".toList, some ⟨"t".toList, "%H<b>%M</b>".toList, none⟩⟩,
+       ⟨"]".toList, none⟩] := by decide
+  rw [this] at hp
+  simp at hp
+  rcases hp with h | h | h <;> subst h <;> rfl
 example : shallow "{:>{w}} {.b[0]!r:{}}{0.real}{{".toList = true := by decide
 example : shallow "{0:{0:{{Y}}}}".toList = false := by decide
 example : Accepts 3 "{a:{b}}".toList := (prepCheck_iff 3 _).1 (by decide)
